@@ -5,6 +5,24 @@ claimed = {
  "C01": ("bounded symbolic execution (gosym over go/ssa, SMT-decided) of ComputeSignature, WritePatch, wsync differ, wire, patcher, fresh bowl on an in-memory file system; native replay of counterexamples",
          "Within the instance grids (scaled block size 2..4, 1-3 files up to 2B+1 bytes, 9x9 shape relations) all byte values are covered by the solver at once; NONE compression only.",
          "memfs/md5/protobuf models; deterministic goroutine schedule; compression codecs outside the claim"),
+ "C02": ("bounded symbolic execution of the overlay bowl (stage + Commit) under the real patcher on an in-memory file system; every iteration order of the maps visited during Commit explored as decisions; SMT-decided; native replay",
+         "For the 16 path-level relations x listed sizes, all contents (generic position) and all commit map orders: old build untouched before Commit, result == new build == fresh apply. Kind swaps are known findings.",
+         "memfs/md5/protobuf models; scaled constants; deterministic goroutine schedule"),
+ "C03": ("bounded symbolic execution of save/resume: patcher checkpoints serialized (gob model), interruption at every checkpoint index k and lag, in-progress output truncated to every length >= the checkpointed offset, brand-new patcher/pool/bowl resumed; SMT-decided",
+         "For the two build pairs, fresh and overlay bowls, rsync and bsdiff series, every (k, lag, truncation) in the grid: resume succeeds and reproduces the uninterrupted result.",
+         "memfs/gob/md5/protobuf models; compression NONE only; one interruption per run"),
+ "C07": ("bounded symbolic execution of rediff.NewContext/Optimize (bsdiff.Do with workers, gosaca) followed by fresh and in-place application of the optimized patch; small alphabets; SMT-decided",
+         "For all contents over the alphabet within the length bounds, the 5 shapes, partitions, ForceMapAll and size limits listed: Optimize succeeds and the optimized patch produces the new build.",
+         "memfs/md5/protobuf/ozzo models; scaled constants; deterministic schedule"),
+ "C08": ("bounded symbolic execution of the differ's accounting: fully symbolic reuse shapes (no fresh bytes) and generic-position single/double edits (fresh <= introduced + (2k+2)B); patch parsed back; SMT-decided",
+         "For every reuse shape and every edit kind/offset/length in the grid, for all contents: the stated byte bounds hold and fresh + reused == new size.",
+         "memfs/md5/protobuf models; B scaled; generic-position assumption stands for high entropy"),
+ "C10": ("bounded symbolic execution of patcher.New/Resume, rediff, ReadSignature/ComputeHashInfo/block validator and overlay Patch on hand-built streams whose message fields are fresh 32/64-bit symbols (one message at a time), structure mutations and every byte-level truncation; implicit panic/termination checks; SMT-decided",
+         "For every value of the mutated fields (full range) and every truncation point in the grid: each consumer returns (error or nil) without panicking within the step budget.",
+         "memfs/protobuf models; containers well-formed; compression NONE"),
+ "C17": ("bounded symbolic execution of whitelisted application with recording bowl/pool for all 16 subsets, plain and optimized patches, plus a hand-built series with symbolic BsdiffHeader.TargetIndex over a 2051-file container; SMT-decided",
+         "For all subsets and contents in the grid: only whitelisted files are written/copied/read-for and they equal full application; skipping stays in sync for every TargetIndex/Seek value.",
+         "memfs/md5/protobuf (tag-faithful) models; scaled constants"),
  "C04": ("bounded symbolic execution of both signature producers (ComputeSignature, diff-time signing via WritePatch), ReadSignature, ComputeHashInfo, Validate/AssertValid; independent reference hashes in the harness; SMT decides all branches/assertions",
          "For every build in the grid (sizes on/around block multiples, 1-3 files, symlink, empty dir, short-read slicings) the solver shows both producers agree with the reference for all contents and the build validates.",
          "memfs/md5 (injective)/protobuf models; deterministic schedule; NONE compression only"),
